@@ -12,6 +12,7 @@ Line protocol for C03 (write-back layer of the phase-equilibrium code).  Floats 
   vle.reactive <obj> <nonzero keys> <dmol> <dF>             -> ok   (a reactive flash ran on <obj>; leftovers are never read)
   sle.setup j                                               -> ok idx=.. pure=b | err nosolute|notindexed idx=.. pure=b
   vle.solve <raw>                                           -> v <clipped>
+  vle.solveu <v>                                            -> v <v>       (`method='shgo'`: no clip in the code)
   vle.setflows reg|<v> | vle.allvap | vle.allliq | vle.frac V | vle.lever x0 <y>
   vle.condense f | vle.vaporise f                           -> st ..   (or `err infeasible`)
   lle.pool                                                  -> st .. idx=..
@@ -75,10 +76,10 @@ def bit (b : Bool) : String := if b then "1" else "0"
 /-- the verdict flags, computed on the model state exactly as the oracle computes them on the real stream -/
 def verdict (st : St) (op : String) : String :=
   let n := st.cls.n
-  let scale := scaleOf n st.snap
-  let cons := (List.range n).all fun i => close (colTotal st.rows i) (colTotal st.snap i) 1e-9 (1e-12 * scale)
-  let tol := 0.0 - 1e-12 * scale
+  -- per chemical: totals to rtol 1e-9 of the chemical's own total, flows >= -1e-12 * (its own total)
+  let cons := (List.range n).all fun i => close (colTotal st.rows i) (colTotal st.snap i) 1e-9 0.0
   let nonneg := (List.range n).all fun i =>
+    let tol := 0.0 - 1e-12 * fabs (colTotal st.snap i)
     get st.rows.g i >= tol && get st.rows.l i >= tol && get st.rows.L i >= tol && get st.rows.s i >= tol
   let isV := op == "vle" || op == "vlle"
   let light := !isV || st.cls.light.all fun i => get st.rows.l i == 0.0
@@ -104,6 +105,12 @@ def stepVle (st : St) (ev : VEv Float) (mon : String := "") (tag : String := "")
     | .ok (rows, reg') =>
       let st' := { st with rows := rows, reg := some reg' }
       (st', ans st' (tag ++ mon))
+
+/-- the skeleton steps of `Stream.vlle` go through the model's own `vlleStep` (the function the theorems are about) -/
+def stepVlle (st : St) (ev : VlleEv Float) (extra : String := "") : St × String :=
+  match vlleStep st.cls { rows := st.rows, total := st.total } ev with
+  | .ok v => let st' := { st with rows := v.rows, total := v.total }; (st', ans st' extra)
+  | .error _ => (st, "err branch")
 
 def step (st : St) (line : String) : St × String :=
   let toks := splitWs line
@@ -159,6 +166,17 @@ def step (st : St) (line : String) : St × String :=
         let clipped := reg.idx.any fun i => !(get v i == get raw i)
         ({ st with rows := rows, reg := some reg' },
          "v " ++ showVec st.cls.n shown ++ (if clipped then " tag:clip-active" else ""))
+      | .error _ => (st, "err")
+    | _, _ => (st, "bad-op")
+  | ["vle.solveu", v] =>
+    match parseVec v, st.reg with
+    | some v, some reg =>
+      let tol := 1e-12 * fmax 1.0 (sumOver reg.idx (get reg.mol))
+      match vleStep st.cls (st.rows, reg) (.solveRaw v) with
+      | .ok (rows, reg') =>
+        ({ st with rows := rows, reg := some reg' },
+         "v " ++ showVec st.cls.n ((List.range st.cls.n).map fun i => if reg.idx.contains i then get v i else 0.0)
+           ++ unmet (boundedOn reg.idx (get v) (get reg.mol) tol) "unclipped-solver-result-bounded" ++ " tag:unclipped-solver")
       | .error _ => (st, "err")
     | _, _ => (st, "bad-op")
   | ["vle.setflows", "reg"] => stepVle st .setFlowsReg
@@ -283,27 +301,20 @@ def step (st : St) (line : String) : St × String :=
       (st', ans st' (unmet (Lf >= 0.0 && Lf <= 1.0) "fraction-in-unit-interval"))
     | _, _ => (st, "bad-op")
   -- ------------------------------------------------------------------ vlle skeleton
-  | ["vlle.pool"] => let st' := { st with rows := vllePool st.cls st.rows }; (st', ans st')
-  | ["vlle.swap"] => let st' := { st with rows := vlleSwap st.rows }; (st', ans st')
-  | "vlle.normalise" :: _ =>
-    let t := vlleTotal st.cls st.rows
-    if isNZ t then
-      let st' := { st with rows := vlleNormalise st.cls st.rows t, total := some t }
-      (st', ans st')
-    else (st, "err branch")
+  | ["vlle.pool"] => stepVlle st .pool
+  | ["vlle.swap"] => stepVlle st .swap
+  | "vlle.normalise" :: _ => stepVlle st .normalise
   | "vlle.assign" :: rest =>
     match parseRows rest with
     | some x =>
       let n := st.cls.n
       let same := (List.range n).all fun i =>
         close (get x.g i + get x.l i + get x.L i) (get st.rows.g i + get st.rows.l i + get st.rows.L i) 1e-9 1e-12
-      let st' := { st with rows := { x with s := st.rows.s } }
-      (st', ans st' (unmet same "vlle-iterate-keeps-totals"))
+      stepVlle st (.assign x) (unmet same "vlle-iterate-keeps-totals")
     | none => (st, "bad-op")
   | ["vlle.finish"] =>
-    match st.total with
-    | none => (st, "err branch")
-    | some t => let st' := { st with rows := vlleFinish st.cls st.rows t, total := none }; (st', ans st')
+    let d := sumOver (List.range st.cls.n) fun i => absV (get st.rows.l i - get st.rows.L i)
+    stepVlle st .finish (if d < 0.000001 then " tag:vlle-merged" else "")
   | _ => (st, "bad-op")
 
 /-- The monitored hypotheses belong to theorems whose premise is a non-negative input.  When the flows at `begin`
@@ -312,8 +323,8 @@ an unmet monitor says nothing: it is reported as a tag instead. -/
 def step' (st : St) (line : String) : St × String :=
   let (st', a) := step st line
   let n := st'.cls.n
-  let tol := 0.0 - 1e-12 * scaleOf n st'.snap
   let preOk := (List.range n).all fun i =>
+    let tol := 0.0 - 1e-12 * fabs (colTotal st'.snap i)
     get st'.snap.g i >= tol && get st'.snap.l i >= tol && get st'.snap.L i >= tol && get st'.snap.s i >= tol
   if preOk then (st', a)
   else (st', joinWith " " ((splitWs a).map fun t => if t.startsWith "unmet:" then "tag:input-negative-" ++ (t.drop 6).toString else t))
